@@ -535,11 +535,14 @@ func (l *IPFSLog) Join(otherLog iface.IPFSLog, size int) (iface.IPFSLog, error) 
 		return l, nil
 	}
 
+	// read a consistent view of the other log before taking our own lock
+	otherEntries, otherHeads := snapshotOf(otherLog)
+
 	verifYield(l, "join.lock")
 	l.lock.Lock()
 	defer l.lock.Unlock()
 
-	newItems := difference(otherLog.GetEntries(), otherLog.RawHeads().Slice(), l)
+	newItems := difference(otherEntries, otherHeads.Slice(), l)
 
 	wg := &sync.WaitGroup{}
 	wg.Add(newItems.Len())
@@ -590,7 +593,7 @@ func (l *IPFSLog) Join(otherLog iface.IPFSLog, size int) (iface.IPFSLog, error) 
 		}
 	}
 
-	mergedHeads := entry.FindHeads(l.heads.Merge(otherLog.RawHeads()))
+	mergedHeads := entry.FindHeads(l.heads.Merge(otherHeads))
 
 	for idx, e := range mergedHeads {
 		// notReferencedByNewItems
@@ -632,6 +635,18 @@ func (l *IPFSLog) Join(otherLog iface.IPFSLog, size int) (iface.IPFSLog, error) 
 	l.Clock = entry.NewLamportClock(clockID, clockTime)
 
 	return l, nil
+}
+
+// snapshotOf returns the entries and the heads another log has at one instant
+func snapshotOf(otherLog iface.IPFSLog) (iface.IPFSLogOrderedEntries, iface.IPFSLogOrderedEntries) {
+	if o, ok := otherLog.(*IPFSLog); ok {
+		o.lock.RLock()
+		defer o.lock.RUnlock()
+
+		return o.Entries.Copy(), o.heads
+	}
+
+	return otherLog.GetEntries(), otherLog.RawHeads()
 }
 
 func difference(entriesA iface.IPFSLogOrderedEntries, headsA []iface.IPFSLogEntry, logB *IPFSLog) iface.IPFSLogOrderedEntries {
